@@ -116,6 +116,10 @@ def _model_job(job) -> List[Dict[str, Any]]:
                 elif origin in ("class", "function", "external") or origin.startswith("global:") or origin == "default-arg":
                     out.append(dict(rule="R14.2", verdict="VIOLATED", module=m, function=fn, construct=text, line=line,
                                     message=f"{op} writes {origin} state '{fld}' (entry {entry})", detail={"entry": entry, "origin": origin}))
+                elif origin == "input:player" and op != "rate":
+                    out.append(dict(rule="R14.5", verdict="VIOLATED", module=m, function=fn, construct=text, line=line,
+                                    message=f"{op} writes attribute '{fld}' of a rating that was passed in: a prediction changes what every later call on these ratings returns (results depend on the call history)",
+                                    detail={"entry": entry, "field": fld}))
                 elif origin == "input:player" and fld in ("mu", "sigma"):
                     v = ev.data.get("val")
                     bp = bad_prov(getattr(v, "prov", frozenset()))
@@ -163,7 +167,7 @@ def _model_job(job) -> List[Dict[str, Any]]:
                 out.append(dict(rule="R14.3", verdict="VIOLATED", module=roles.model.module.name, function=entry, construct=f"return value of {op}", line=roles.model.lookup(op).node.lineno,
                                 message=f"returned numbers depend on {bp}", detail={"entry": entry}))
         # one discharged obligation per entry-point run and rule when nothing was reported for it
-        for rule in ("R14.1", "R14.2", "R14.3"):
+        for rule in ("R14.1", "R14.2", "R14.3") + (("R14.5",) if op != "rate" else ()):
             if not any(d["rule"] == rule and d["verdict"] != "HOLDS" and d.get("detail", {}).get("entry") == entry for d in out):
                 out.append(dict(rule=rule, verdict="HOLDS", module=roles.model.module.name, function=entry, construct=f"{entry} {sorted(kw.items())}", line=roles.model.lookup(op).node.lineno,
                                 message="", detail={"entry": entry, "case": kw, "functions_entered": len(I.functions_entered)}))
